@@ -70,6 +70,13 @@ def table(draw, max_rows=25, stream_names=None, force_axes=None):
     if draw(st.integers(0, 3)) == 0:
         # sub-second sampling (multiples of 1/8 s); strictly increasing is preserved because every step is >= 7 s
         t = [tnorm(v + draw(st.sampled_from([0.0, 0.125, 0.5, 0.875]))) for v in t]
+    elif n >= 2 and draw(st.integers(0, 4)) == 0:
+        # repeated time stamps (several depths of one profile share a stamp): still non-decreasing
+        for i in range(1, n):
+            if draw(st.integers(0, 2)) == 0:
+                t[i] = t[i - 1]
+        for i in range(1, n):
+            t[i] = max(t[i], t[i - 1])
     names = stream_names or draw(st.sampled_from([["temp"], ["temp", "sal"], ["temp", "sal", "o2"]]))
     cols = {}
     for nm in names:
@@ -222,6 +229,14 @@ def np_col(xs):
     return np.array([NAN if v is None else float(v) for v in xs], dtype="float64")
 
 
+def np_col_masked(xs, junk):
+    """the column as a numpy masked array (what netCDF readers hand out): missing members masked, a finite number under
+    the mask; a column without missing members is a masked array with nothing masked"""
+    a = np_col(xs)
+    m = np.isnan(a)
+    return np.ma.MaskedArray(np.where(m, float(junk), a), mask=m)
+
+
 def np_time(t):
     if any(float(v) != int(v) for v in t):
         return np.array([int(round(float(v) * 1000)) for v in t], dtype="int64").astype("datetime64[ms]").astype("datetime64[ns]")
@@ -321,12 +336,15 @@ def columns(tbl):
     return {**tbl["axes"], **tbl["cols"]}
 
 
-def direct_call(tbl, mask, sid, mod, test, kw):
+def direct_call(tbl, mask, sid, mod, test, kw, inp_masked=None):
     """What the test function returns when called directly on the window rows. Returns (flags list | None if it raised)."""
     import importlib
     fn = getattr(importlib.import_module(f"ioos_qc.{mod}"), test)
     sel = [i for i, m in enumerate(mask) if m]
     passed = {"inp": np_col([columns(tbl)[sid][i] for i in sel])}
+    if inp_masked is not None:
+        # the direct call gets the observations in the carrier the stream was given
+        passed["inp"] = np_col_masked([columns(tbl)[sid][i] for i in sel], inp_masked)
     if tbl["t"] is not None:
         passed["tinp"] = np_time([tbl["t"][i] for i in sel])
     for ax, name in (("z", "zinp"), ("lat", "lat"), ("lon", "lon")):
